@@ -21,6 +21,8 @@ def classify(v):
         return 'C02.with.parenthesised_tuple'
     if v.get('kind') in ('UnstableMinification', 'tree-differs', 'output-unparseable') and v.get('py2_exec'):
         return 'C02.py2.exec_operand_parentheses'
+    if v.get('kind') in ('UnstableMinification', 'tree-differs', 'output-unparseable') and v.get('py2_kwargs'):
+        return 'C02.py2.call_kwargs_parentheses'
     return None
 
 
@@ -127,6 +129,7 @@ def main(tier, seed):
                 if src is None:
                     src = base64.b64decode(c['src_b64']).decode('utf-8', 'replace')
                 v['with_tuple'] = _has_with_tuple(src)
+                v['py2_kwargs'] = version.startswith('2.') and bool(__import__('re').search(r'\*\*\s*\(\s*\(', src))
                 v['py2_exec'] = version.startswith('2.') and bool(__import__('re').search(r'(^|\n)\s*exec\b', src))
                 out['violations'].append({
                     'mech': classify(v),
